@@ -245,6 +245,17 @@ func (s *Scope) Eval(e Expr) Term {
 			q = "exists"
 			body = And(append(guards, body)...)
 		}
+		if len(e.Triggers) > 0 {
+			var pats []string
+			for _, tg := range e.Triggers {
+				var ts []string
+				for _, te := range tg {
+					ts = append(ts, c.Eval(te).S)
+				}
+				pats = append(pats, ":pattern ("+strings.Join(ts, " ")+")")
+			}
+			return T(fmt.Sprintf("(%s (%s) (! %s %s))", q, strings.Join(decls, " "), body.S, strings.Join(pats, " ")), SBool)
+		}
 		return T(fmt.Sprintf("(%s (%s) %s)", q, strings.Join(decls, " "), body.S), SBool)
 	case EIndex:
 		b := s.Eval(e.X)
